@@ -48,17 +48,25 @@ var versionSetNames = []string{"time and hash differ", "only the hash differs", 
 var versions = versionSets[0]
 var currentVSet = 0
 
+// anonymousLastKey makes the universe's last AST key a nameless node (see newUniverse).
+var anonymousLastKey = false
+
 type universe struct {
 	nk    int
 	nv    int
-	nodes []*ast.TypeSpec
+	nodes []ast.Node
 	names []string // base names: K0.., int, error
 }
 
 func newUniverse(nk, nv int) *universe {
 	u := &universe{nk: nk, nv: nv}
 	for i := 0; i < nk; i++ {
-		u.nodes = append(u.nodes, &ast.TypeSpec{Name: &ast.Ident{Name: fmt.Sprintf("K%d", i), NamePos: token.Pos(10 * (i + 1))}})
+		if anonymousLastKey && i == nk-1 {
+			// a declaration without a name of its own: an embedded field (*Base) - its key has no name part
+			u.nodes = append(u.nodes, &ast.Field{Type: &ast.StarExpr{Star: token.Pos(10 * (i + 1)), X: &ast.Ident{Name: "Base", NamePos: token.Pos(10*(i+1) + 1)}}})
+		} else {
+			u.nodes = append(u.nodes, &ast.TypeSpec{Name: &ast.Ident{Name: fmt.Sprintf("K%d", i), NamePos: token.Pos(10 * (i + 1))}})
+		}
 		u.names = append(u.names, fmt.Sprintf("K%d", i))
 	}
 	u.names = append(u.names, "int", "error")
@@ -447,6 +455,14 @@ func setString(m map[string]bool) string {
 func (u *universe) baseOfKey(k graphs.SymbolKey) string {
 	if k.IsUniverse {
 		return k.Name
+	}
+	if k.Name == "" {
+		// a nameless declaration: identify it by its position, as the key itself does
+		for i, n := range u.nodes {
+			if n.Pos() == k.Position {
+				return u.names[i]
+			}
+		}
 	}
 	return k.Name
 }
@@ -852,7 +868,7 @@ func (x *explorer) step(hist []hstep, oi int) []succ {
 			f := x.features(opsOf(full), mm)
 			f["dependents-order"] = fmt.Sprint(len(prefix) > 0)
 			x.run.Report(core.Violation{Oracle: mm.oracle, Features: f, What: mm.what,
-				Case: map[string]any{"keys": x.u.nk, "versions": x.u.nv, "version_set": currentVSet, "history": x.histStrings(full), "steps": full}})
+				Case: map[string]any{"keys": x.u.nk, "versions": x.u.nv, "version_set": currentVSet, "anonymous_last_key": anonymousLastKey, "history": x.histStrings(full), "steps": full}})
 		}
 		if err != nil {
 			report(mismatch{"op-error", fmt.Sprintf("%s failed: %v", x.u.opString(x.ops[oi]), err)})
@@ -970,11 +986,12 @@ func Main(tier, replay string) {
 	type cfg struct {
 		nk, nv, depth int
 		vset          int
+		anon          bool
 	}
-	cfgs := []cfg{{2, 2, 3, 0}, {2, 2, 2, 1}, {2, 2, 2, 2}}
+	cfgs := []cfg{{2, 2, 3, 0, false}, {2, 2, 2, 1, false}, {2, 2, 2, 2, false}, {2, 2, 2, 0, true}}
 	deadline := core.Deadline(tier, 5*time.Minute, 60*time.Minute)
 	if tier == "thorough" {
-		cfgs = []cfg{{3, 2, 3, 0}, {2, 2, 4, 0}, {3, 1, 5, 0}, {2, 2, 3, 1}, {2, 2, 3, 2}}
+		cfgs = []cfg{{3, 2, 3, 0, false}, {2, 2, 4, 0, false}, {3, 1, 5, 0, false}, {2, 2, 3, 1, false}, {2, 2, 3, 2, false}, {2, 2, 3, 0, true}}
 	}
 	if e := os.Getenv("VERIF_C17_CFG"); e != "" { // e.g. "2:2:4,3:1:5" (keys:versions:depth) for experiments
 		cfgs = nil
@@ -986,7 +1003,7 @@ func Main(tier, replay string) {
 	}
 	var bounds []string
 	for _, c := range cfgs {
-		versions, currentVSet = versionSets[c.vset], c.vset
+		versions, currentVSet, anonymousLastKey = versionSets[c.vset], c.vset, c.anon
 		u := newUniverse(c.nk, c.nv)
 		x := &explorer{u: u, ops: u.allOps(), run: run}
 		done, states := x.bfs(c.depth, deadline, 3_000_000)
@@ -996,7 +1013,7 @@ func Main(tier, replay string) {
 		x.outc.Range(func(k, v any) bool { run.Outcome(k.(string), v.(*atomic.Int64).Load()); return true })
 		run.Add("remove_orders_explored", x.orders.Load())
 		run.Add("transitions_with_order_choice", x.multiOrd.Load())
-		bounds = append(bounds, fmt.Sprintf("%d AST keys x %d file versions ("+versionSetNames[c.vset]+") + builtins int,error; %d operations; all histories to depth %d (requested %d), de-duplicated on the full private state; all dependents orders of every RemoveNode", c.nk, c.nv, len(x.ops), done, c.depth))
+		bounds = append(bounds, fmt.Sprintf("%d AST keys x %d file versions ("+versionSetNames[c.vset]+") + builtins int,error; %d operations; all histories to depth %d (requested %d), de-duplicated on the full private state; all dependents orders of every RemoveNode", c.nk, c.nv, len(x.ops), done, c.depth)+map[bool]string{true: "; the last key is a nameless declaration (embedded field)", false: ""}[c.anon])
 		run.Sample(map[string]any{"keys": c.nk, "versions": c.nv, "history": x.histStrings([]hstep{{Op: 2}, {Op: len(x.ops) - 2}, {Op: 30 % len(x.ops)}})})
 	}
 	run.Bound = strings.Join(bounds, " | ")
@@ -1012,6 +1029,9 @@ func replayCase(run *core.Run, path string) {
 	nv := 2
 	if f, ok := m["versions"].(float64); ok {
 		nv = int(f)
+	}
+	if a, ok := m["anonymous_last_key"].(bool); ok {
+		anonymousLastKey = a
 	}
 	if f, ok := m["version_set"].(float64); ok && int(f) < len(versionSets) {
 		versions, currentVSet = versionSets[int(f)], int(f)
